@@ -80,7 +80,7 @@ func (rp *replayPlan) build(name, path string, t types.Type, term string, depth 
 		c.sortOf(t)
 		for i := 0; i < x.NumFields(); i++ {
 			f := x.Field(i)
-			k := rp.build(name+"."+f.Name(), path+"."+f.Name(), f.Type(), fmt.Sprintf("(%s!%s %s)", sname, sanitize(f.Name()), term), depth+1, false)
+			k := rp.build(name+"."+f.Name(), path+"."+f.Name(), f.Type(), fmt.Sprintf("(%s!%s %s)", sname, fieldName(f), term), depth+1, false)
 			k.field = f
 			n.kids = append(n.kids, k)
 		}
@@ -139,7 +139,7 @@ func (rp *replayPlan) buildStructFields(name, path string, t types.Type, ref str
 		if isArrayType(f.Type()) {
 			continue
 		}
-		cl := "F_" + sname + "_" + sanitize(f.Name())
+		cl := "F_" + sname + "_" + fieldName(f)
 		if _, known := c.classes[cl]; !known {
 			continue // the function never touches this field
 		}
@@ -249,7 +249,52 @@ type replayOutcome struct {
 	TestFile   string
 }
 
+// replayRace runs the package's own tests under the race detector: a reported DATA RACE inside the function
+// reproduces a fork/join violation on the real code.
+func replayRace(P *Program, full string) (bool, string) {
+	fn := P.FindFunc(full)
+	if fn == nil || fn.Pkg == nil {
+		return false, "function not found"
+	}
+	pkgDir := ""
+	for _, p := range P.Pkgs {
+		if p.Types == fn.Pkg.Pkg && len(p.GoFiles) > 0 {
+			pkgDir = filepath.Dir(p.GoFiles[0])
+		}
+	}
+	if pkgDir == "" {
+		return false, "package directory not found"
+	}
+	ctx, cancel := context.WithTimeout(context.Background(), 15*time.Minute)
+	defer cancel()
+	cmd := exec.CommandContext(ctx, "go", "test", "-race", "-vet=off", "-count=1", "-timeout", "300s", ".")
+	cmd.Dir = pkgDir
+	env := []string{}
+	for _, e := range goEnv() {
+		if !strings.HasPrefix(e, "CGO_ENABLED=") {
+			env = append(env, e)
+		}
+	}
+	cmd.Env = append(env, "CGO_ENABLED=1") // the race detector needs cgo
+	var buf bytes.Buffer
+	cmd.Stdout, cmd.Stderr = &buf, &buf
+	err := cmd.Run()
+	out := buf.String()
+	short := fn.Name()
+	if fn.Parent() != nil {
+		short = fn.Parent().Name()
+	}
+	if strings.Contains(out, "DATA RACE") && strings.Contains(out, short) {
+		k := strings.Index(out, "WARNING: DATA RACE")
+		return true, fmt.Sprintf("`go test -race` of %s reports a data race inside %s  => REPRODUCED on the real code\n%s", pkgDir, short, firstLines(out[k:], 24))
+	}
+	return false, fmt.Sprintf("`go test -race` of %s did not report a race in %s (exit: %v)", pkgDir, short, err)
+}
+
 func tryReplay(P *Program, id string, r *oblRun) (bool, string) {
+	if r.o.Kind == "forkjoin" && r.res.Status == "sat" {
+		return replayRace(P, r.o.Func)
+	}
 	if r.u == nil || r.u.res == nil || r.u.res.Gen == nil || r.res.Status != "sat" {
 		return false, "no model to replay"
 	}
@@ -699,7 +744,7 @@ func (rp *replayPlan) evalClause(P *Program, clause Expr, obs map[string]string)
 					for j := 0; j < st.NumFields(); j++ {
 						f := st.Field(j)
 						if ov, ok := obs[fmt.Sprintf("res%d.%s", i, f.Name())]; ok {
-							cl := "F_" + sname + "_" + sanitize(f.Name())
+							cl := "F_" + sname + "_" + fieldName(f)
 							if _, known := c.classes[cl]; known {
 								if lit, ok := goValToSMT(c, f.Type(), ov); ok {
 									facts = append(facts, eq(fmt.Sprintf("(select %s@post %s)", cl, term), lit))
@@ -715,14 +760,14 @@ func (rp *replayPlan) evalClause(P *Program, clause Expr, obs map[string]string)
 				f := u.Field(j)
 				if ov, ok := obs[fmt.Sprintf("res%d.%s", i, f.Name())]; ok {
 					if lit, ok := goValToSMT(c, f.Type(), ov); ok {
-						facts = append(facts, eq(fmt.Sprintf("(%s!%s %s)", sname, sanitize(f.Name()), term), lit))
+						facts = append(facts, eq(fmt.Sprintf("(%s!%s %s)", sname, fieldName(f), term), lit))
 					}
 				}
 				if at, isA := f.Type().Underlying().(*types.Array); isA {
 					for k := int64(0); k < at.Len() && k < 16; k++ {
 						if ov, ok := obs[fmt.Sprintf("res%d.%s[%d]", i, f.Name(), k)]; ok {
 							if lit, ok := goValToSMT(c, at.Elem(), ov); ok {
-								facts = append(facts, eq(fmt.Sprintf("(select (%s!%s %s) %s)", sname, sanitize(f.Name()), term, c.intLit64(k, 64)), lit))
+								facts = append(facts, eq(fmt.Sprintf("(select (%s!%s %s) %s)", sname, fieldName(f), term, c.intLit64(k, 64)), lit))
 							}
 						}
 					}
